@@ -346,6 +346,8 @@ CHECKS = {
               "within 10 s (40 s DNS) while the stalled peers stay connected; a failure is re-confirmed once with a fresh client "
               "(otherwise counted inconclusive). Every case is non-trivial (at least one stalled peer); distinct = distinct tuple"),
         assumptions=["time bound 10 s (DNS 40 s) is >100x the normal latency on this machine"],
+        also=dict(inpkg="internal/streams/dns", src=["inpkg_dnssim", "inpkg_c15"], tests=["TestSilentSessionsAcrossTheSweep"],
+                  quick=dict(run=".", timeout=400), thorough=dict(run=".", timeout=600)),
         quick=dict(run=".", checks=40, timeout=600, shrinktime="5s"),
         thorough=dict(run=".", checks=150, timeout=3400, shards=6),
         design_ref="DESIGN.md 2/C15",
